@@ -375,5 +375,15 @@ def r7_real_headers_merged_in_full(chk: Check) -> None:
             chk.undecided("C09.R7", fn, construct, "argument not recognised", fn.loc(c))
 
 
+def r8_memo(chk: Check) -> None:
+    from . import shared
+
+    P = chk.project
+    mods = ('core/curl.py', 'generation/case.py', 'transport/prepare.py', 'core/failures.py', 'engine/recorder.py')
+    fns = [f for m in mods if m in P.by_relpath for f in P.module(m).functions.values() if not isinstance(f.node, ast.Lambda)]
+    shared.memo_key_rule(chk, "C09.R8", fns, {("_set_cache_entry", "data"): "a setter: the value to store is handed in by get(), which computed it for this key", ("_get_body_strategy", "operation"): "a parameter belongs to exactly one operation (stated next to the cache)"},
+                         "MEMO-KEY(anchor modules of this property): the command is built from the request that was really sent: a cache keyed by less hands out another request's command", floor=0)
+
+
 def rules(tier: str) -> list:  # type: ignore[type-arg]
-    return [r1_shell_quoting, r2_real_headers, r3_filter_headers, r5_curl_argument_semantics, r6_command_verbatim, r7_real_headers_merged_in_full]
+    return [r1_shell_quoting, r2_real_headers, r3_filter_headers, r5_curl_argument_semantics, r6_command_verbatim, r7_real_headers_merged_in_full, r8_memo]
